@@ -40,7 +40,9 @@ POSITIONS = ["stmt", "print", "bare", "if", "while", "opnd_left", "opnd_right"]
 # `escaped`: holder, fallback variable, `?=` target ... are locals of a factory function; the construct sits in a
 # closure RETURNED by the factory and called after the factory's frame is gone (captures are all it has); every
 # captured name is mentioned only inside the construct (apart from the `?=` target, which is printed)
-DEPTHS = ["top", "block", "func", "escaped"]
+# `caller_shadow`: the construct sits in a function that captures the holder / fallback / `?=` target, and is called
+# from a driver function owning unrelated locals of the SAME names (other values): names resolve lexically
+DEPTHS = ["top", "block", "func", "escaped", "caller_shadow"]
 FORMS = ["var", "lit"]
 
 CLASS_K = ("raw", ["class K {", "  id: int", "  constructor(self, id: int) { self.id = id }", "}"])
@@ -242,6 +244,34 @@ def build(cell, positions=None):
             inner = [("block", body)]
         elif depth == "func":
             inner = [("fn", "g" + i, [], None, body), ("callstmt", "g" + i, [])]
+        elif depth == "caller_shadow":
+            flip = ("nil",) if state == "present" else pv
+            decoys = []
+            if holder == "param":
+                decoys.append(("decl", "p", opt, flip))
+            for d in decls:
+                if d[0] != "decl":
+                    continue
+                nm = d[1]
+                if nm in ("x", "pv0"):
+                    decoys.append(("decl", nm, opt, flip))
+                elif nm == "w1":
+                    decoys.append(("decl", nm, d[2], ov))
+                elif nm == "fv":
+                    decoys.append(("decl", nm, d[2], pv))
+                elif nm == "sel":
+                    decoys.append(("decl", nm, None, ("lit", 0 if state == "present" else 1)))
+                elif nm == "l":
+                    decoys.append(("decl", nm, d[2], ("listlit", [pv, ("nil",)])))
+                elif nm == "b":
+                    decoys.append(("decl", nm, None, ("new", "Bx", [flip])))
+                elif nm == "a" + i:
+                    # a value that is neither the target's initial value nor what `?=` stores
+                    decoys.append(("decl", nm, opt, ov if cons == "assign_nil" else
+                                   (("nil",) if state == "present" else pv)))
+            inner = [("fn", "g" + i, [], None, body),
+                     ("fn", "dr" + i, [], None, decoys + [("callstmt", "g" + i, []), ("print", ("lit", "driver done"))]),
+                     ("callstmt", "dr" + i, [])]
         elif depth == "escaped":
             inner = None
             esc_body = body
@@ -718,7 +748,7 @@ def run(ctx, break_or=False):
     out.coverage.update(cov)
     out.exhaustive = not out.inconclusive and cov["rejected_unexpectedly"] == 0
     out.rule = ("catalogue = every applicable cell of type(6) x holder(6 + literal) x state(2) x construct(%d) x "
-                "position(%d) x depth(4) x form(2); the %d positions of a cell group run as one program (own names per "
+                "position(%d) x depth(5) x form(2); the %d positions of a cell group run as one program (own names per "
                 "position) when the model predicts no failure, and as one program each when it predicts a failure, the "
                 "batch disagrees, or the depth is `escaped` (one returned closure per program)%s; a cell is non-trivial when its program was accepted by the compiler and "
                 "compared with the model (distinct = distinct cells / random seeds); evaluations = executions of the "
